@@ -24,9 +24,15 @@ import (
 	core "verif/rep"
 )
 
-const (
-	verifDir = "/verif"
-)
+// verifDir is /verif; VERIF_DIR points a background run at a snapshot of it
+// (vp run), so that long sweeps do not read half-edited sources or overwrite
+// the evidence of the registered checks.
+var verifDir = func() string {
+	if d := os.Getenv("VERIF_DIR"); d != "" {
+		return d
+	}
+	return "/verif"
+}()
 
 // repoDir is the tree under test.  It is /repo; the seeding tools point
 // VERIF_REPO at a scratch worktree to try a changed tree without touching
